@@ -114,6 +114,9 @@ fn single_overlong_step(c: &Case, prob: &Prob, rtol: Tol, atol: Tol, bound: f64)
             }
             let h = (s.t[i] - s.t[i - 1]).abs();
             let hp = (s.t[i - 1] - s.t[i - 2]).abs();
+            if std::env::var_os("VF_C01_DIAG").is_some() {
+                eprintln!("C01-DIAG {} step {} of {}: h/hp = {:.3}, err_before/bound = {:.4}, err/bound = {:.2}", c.method.name(), i, s.t.len() - 1, h / hp, prev_err / bound, e / bound);
+            }
             return h >= 2.5 * hp && prev_err <= 0.1 * bound;
         }
         prev_err = e;
